@@ -298,6 +298,12 @@ def _rand_op(rng, shape, model):
             else:
                 return {"k": "set_region", "key": key, "rhs": "array", "v": rng.choice(VALS, size=rshape).tolist(),
                         "holder_rhs": ["ndarray", "tensor"][int(rng.integers(0, 2))]}
+        if rng.random() < 0.3:
+            # one value for the whole region: an index list may then name a position more than once
+            for e in key:
+                if isinstance(e, dict) and "l" in e and rng.random() < 0.7:
+                    e["l"] = e["l"] + [e["l"][int(rng.integers(0, len(e["l"])))] for _ in range(int(rng.integers(1, 3)))]
+                    e["l"] = [e["l"][j] for j in rng.permutation(len(e["l"]))]
         return {"k": "set_region", "key": key, "rhs": "scalar", "v": float(rng.choice(VALS))}
     if c < 0.92:
         p = int(rng.integers(1, 6))
